@@ -273,6 +273,40 @@ B ::= BOOLEAN".to_string(), 22),
         }
     }
     ctx.floor("C17.book/position-writers", writers.len(), 3);
+    // a hand-written parser hands on the *rest of its input*: a slice of the Input it was given (which keeps line, column,
+    // offset, context start and source path) — never an Input built afresh from text, which restarts at line 1, offset 0
+    {
+        let mut results = 0;
+        for f in m.fns.iter().filter(|f| f.krate == "rasn-compiler" && f.module.starts_with("lexer") && !f.module.contains("tests")) {
+            struct R { out: Vec<(String, usize)> }
+            impl model::DeepCb for R {
+                fn expr(&mut self, e: &syn::Expr) {
+                    if let syn::Expr::Call(c) = e {
+                        if tok(&c.func) == "Ok" && c.args.len() == 1 {
+                            if let syn::Expr::Tuple(t) = &c.args[0] {
+                                if t.elems.len() == 2 {
+                                    self.out.push((tok(&t.elems[0]), model::line_of(syn::spanned::Spanned::span(c))));
+                                }
+                            }
+                        }
+                    }
+                }
+            }
+            let mut r = R { out: vec![] };
+            model::deep_walk_block(&f.block, &mut r);
+            for (rest, line) in r.out {
+                results += 1;
+                let fresh = rest.ends_with(".into()") || rest.starts_with("Input::from(") || rest.starts_with("Input::new(") || rest.ends_with(".into_input()");
+                // the empty rest at the very end of the text carries no position any error could be reported at
+                if fresh && rest != "\"\".into()" {
+                    ctx.violate("C17.book", &format!("rest-of-input-built-afresh:{}", f.name), &f.file, line,
+                        &format!("`{}` returns `{}` as the rest of its input: an Input converted from text starts again at line 1, column 1, offset 0 without source path, so every error reported further on is positioned relative to this place instead of the file; the rest must be a slice of the Input the parser was given", f.name, rest));
+                }
+            }
+        }
+        ctx.oblige("C17.book", "rest-of-input", true);
+        ctx.floor("C17.book/hand-written-parser-results", results, 5);
+    }
     // constructors start at 1,1,0
     for f in m.fns.iter().filter(|f| f.name == "from" && f.self_ty.as_deref() == Some("Input")) {
         ctx.func(&f.key);
